@@ -41,6 +41,7 @@ func runC17(p *Prog, r *Report) {
 	c17TextVocabulary(p, r)
 	c17BareNames(p, r)
 	c17Exhaustive(p, r)
+	c17SiblingDecoders(p, r)
 }
 
 func c17TypeCodec(p *Prog, r *Report) {
@@ -478,4 +479,70 @@ func c17Exhaustive(p *Prog, r *Report) {
 		r.Undec(rule, "schema:type-switches", "-", "expected switches over the schema type sum in the printer, the JSON encoder and the resolver; found "+itoa(n))
 	}
 	_ = constant.MakeBool
+}
+
+// R17.6: the two decoders of a schema are siblings: what one resets, the other must reset. Each Unmarshal* method of
+// schema.Schema must write the same set of receiver fields, and no method other than the decoders and the explicit
+// setters writes a receiver field at all (a lazily filled cache of the resolved schema survives a reload through the
+// sibling that forgot to clear it).
+func c17SiblingDecoders(p *Prog, r *Report) {
+	const rule = "R17.6-sibling-decoders"
+	st := p.namedType(pSchema, "Schema")
+	if st == nil {
+		r.Anchor(rule, "schema.Schema")
+		return
+	}
+	sst := structOf(st)
+	writes := map[string]map[string]bool{}
+	var names []string
+	for _, fn := range p.Funcs {
+		if fnPkgPath(fn) != pSchema || fn.Parent() != nil || fn.Signature.Recv() == nil || namedOf(fn.Signature.Recv().Type()) != st || fn.Synthetic != "" {
+			continue
+		}
+		set := map[string]bool{}
+		recv := fn.Params[0]
+		forEachInstr(fn, func(in ssa.Instruction) {
+			if stI, ok := in.(*ssa.Store); ok {
+				if fa, ok := stI.Addr.(*ssa.FieldAddr); ok && fa.X == ssa.Value(recv) {
+					set[sst.Field(fa.Field).Name()] = true
+				}
+				if stI.Addr == ssa.Value(recv) {
+					set["*"] = true
+				}
+			}
+		})
+		writes[fn.Name()] = set
+		names = append(names, fn.Name())
+	}
+	sort.Strings(names)
+	var decoders []string
+	for _, n := range names {
+		if strings.HasPrefix(n, "Unmarshal") {
+			decoders = append(decoders, n)
+		}
+	}
+	if len(decoders) < 2 {
+		r.Anchor(rule, "the Unmarshal* methods of schema.Schema (found "+itoa(len(decoders))+")")
+		return
+	}
+	key := func(m map[string]bool) string {
+		var ks []string
+		for k := range m {
+			ks = append(ks, k)
+		}
+		sort.Strings(ks)
+		return strings.Join(ks, ",")
+	}
+	ref := key(writes[decoders[0]])
+	for _, d := range decoders[1:] {
+		r.Check(key(writes[d]) == ref, rule, "schema.Schema."+d+"~"+decoders[0], "-", "both decoders replace the same receiver fields {"+ref+"}",
+			"Schema."+d+" writes the receiver fields {"+key(writes[d])+"} while Schema."+decoders[0]+" writes {"+ref+"}: state reset by one decoder survives a reload through the other (e.g. a cached resolution of the previous schema)")
+	}
+	for _, n := range names {
+		if strings.HasPrefix(n, "Unmarshal") || strings.HasPrefix(n, "Set") {
+			continue
+		}
+		r.Check(len(writes[n]) == 0, rule, "schema.Schema."+n+":read-only", "-", n+" does not write the receiver",
+			"Schema."+n+" writes the receiver field(s) {"+key(writes[n])+"}: a value remembered by a read-only method must be invalidated by every decoder, and concurrent calls race on it")
+	}
 }
